@@ -823,4 +823,154 @@ theorem findGrouping_foreign (reg : Registry) (linked : List Nat) (root : Mod) (
     | none => simp only [orElse_none, hv, fgScope_nil]
   · next h => simp only [orElse_none, hv, fgScope_nil]
 
+/-! ### reading the binding: where the grouping was found -/
+
+theorem declares_spec {s : Stmt} {name : String} {g : Stmt} (h : declares s name = some g) :
+    g.kw = "grouping" ∧ g ∈ s.subs ∧ g.arg = name := by
+  unfold declares at h
+  have hm := List.mem_of_find?_eq_some h
+  have ha := List.find?_some h
+  unfold Stmt.all at hm
+  rw [List.mem_filter] at hm
+  exact ⟨by simpa using hm.2, hm.1, by simpa using ha⟩
+
+theorem found_some {ms : List Mod} {name : String} {r : GroupingRef} (h : found ms name = some r) :
+    ∃ s ∈ ms, declares s.stmt name = some r.1 ∧ r.2.1 = s ∧ r.2.2 = [s.stmt] := by
+  unfold found at h
+  obtain ⟨s, hs, hf⟩ := List.exists_of_findSome?_eq_some h
+  cases hd : declares s.stmt name with
+  | none => simp [hd] at hf
+  | some g =>
+    simp only [hd, Option.map_some, Option.some.injEq] at hf
+    subst hf
+    exact ⟨s, hs, hd, rfl, rfl⟩
+
+theorem bindLexical_some (root : Mod) (nm : String) : ∀ (inner : List Stmt) (r : GroupingRef),
+    bindLexical root inner nm = some r →
+    ∃ pre n up, inner = pre ++ n :: up ∧ declares n nm = some r.1 ∧ r.2.1 = root ∧ r.2.2 = n :: up ++ [root.stmt] ∧
+      ∀ x ∈ pre, declares x nm = none
+  | [], r, h => by simp [bindLexical] at h
+  | n :: up, r, h => by
+    unfold bindLexical at h
+    cases hd : declares n nm with
+    | some g =>
+      simp only [hd, Option.some.injEq] at h
+      subst h
+      exact ⟨[], n, up, rfl, hd, rfl, rfl, by simp⟩
+    | none =>
+      simp only [hd] at h
+      obtain ⟨pre, n', up', h1, h2, h3, h4, h5⟩ := bindLexical_some root nm up r h
+      refine ⟨n :: pre, n', up', by rw [h1]; rfl, h2, h3, h4, ?_⟩
+      intro x hx
+      rcases List.mem_cons.1 hx with rfl | hx
+      · exact hd
+      · exact h5 x hx
+
+/-! ### reading the search order: only the files of the whole module occur in it -/
+
+theorem reach_trans {reg : Registry} {linked : List Nat} {a b c : Mod} (h1 : Reach reg linked a b) (h2 : Reach reg linked b c) :
+    Reach reg linked a c := by
+  induction h2 with
+  | refl => exact h1
+  | tail _ hs ih => exact Reach.tail ih hs
+
+theorem next_step {reg : Registry} {linked : List Nat} {m t : Mod} (h : t ∈ next reg linked m) : Spec.Uses.Step reg linked m t := by
+  unfold next at h
+  cases hm : isModuleStmt m.stmt with
+  | false => simp [hm] at h
+  | true =>
+    simp only [hm, if_true, List.mem_append] at h
+    rcases h with h | h
+    · cases hl : linked.contains m.seq with
+      | false =>
+        rw [hl] at h
+        simp at h
+      | true =>
+        simp only [hl, if_true, List.mem_filterMap] at h
+        obtain ⟨i, hi, hf⟩ := h
+        exact Spec.Uses.Step.incl hm hl hi hf
+    · cases hs : m.isSub with
+      | false => simp [hs] at h
+      | true =>
+        simp only [hs, if_true, Option.mem_toList] at h
+        exact Spec.Uses.Step.owner hm hs h
+
+theorem visitList_reach {reg : Registry} {linked : List Nat} (V : Mod → List String → List Mod × List String) (m : Mod)
+    (hV : ∀ t s x, Spec.Uses.Step reg linked m t → x ∈ (V t s).1 → Reach reg linked m x) :
+    ∀ (ts : List Mod) (seen : List String), (∀ t ∈ ts, Spec.Uses.Step reg linked m t) →
+      ∀ x ∈ (visitList V ts seen).1, Reach reg linked m x
+  | [], seen, _, x, hx => by simp [visitList] at hx
+  | t :: ts, seen, hts, x, hx => by
+    rw [visitList_cons] at hx
+    split at hx
+    · exact visitList_reach V m hV ts seen (fun y hy => hts y (List.mem_cons_of_mem _ hy)) x hx
+    · simp only [List.mem_append] at hx
+      rcases hx with hx | hx
+      · exact hV t _ x (hts t (List.mem_cons_self ..)) hx
+      · exact visitList_reach V m hV ts _ (fun y hy => hts y (List.mem_cons_of_mem _ hy)) x hx
+
+/-- Every (sub)module in the search order from `m` is reached from `m` through include statements
+and belongs-to statements. -/
+theorem visit_reach (reg : Registry) (linked : List Nat) : ∀ (d : Nat) (m : Mod) (seen : List String),
+    ∀ x ∈ (visit reg linked d m seen).1, Reach reg linked m x
+  | 0, m, seen, x, hx => by
+    simp [visit] at hx
+    subst hx
+    exact Reach.refl _
+  | d + 1, m, seen, x, hx => by
+    unfold visit at hx
+    simp only [List.mem_cons] at hx
+    rcases hx with rfl | hx
+    · exact Reach.refl _
+    · refine visitList_reach (visit reg linked d) m ?_ _ seen (fun t ht => next_step ht) x hx
+      intro t s y hst hy
+      exact reach_trans (Reach.tail (Reach.refl m) hst) (visit_reach reg linked d t s y hy)
+
+/-! ### later uses -/
+
+/-- A grouping that has been converted before yields its cached entry, whatever the scope and the
+in-progress set of the later caller; the state is unchanged. -/
+theorem toEntry_grouping_cached (env : Env) (fuel : Nat) (groot : Mod) (gscope : List Stmt) (g : Stmt)
+    (visiting : List NodeId) (st : TState) (k : NodeId) (e : Entry) (hkw : g.kw = "grouping")
+    (h : st.gcache.find? (·.1 == nodeId groot g) = some (k, e)) :
+    toEntry env (fuel + 1) groot gscope g visiting st = (e, st) := by
+  rw [toEntry]
+  simp only [hkw, String.reduceBEq, Bool.or_self, Bool.false_eq_true, if_false, if_true, h]
+
+/-! ### `merge` keeps the receiver's name -/
+
+theorem name_withDir (e : Entry) (c : List Entry) : (e.withDir c).name = e.name := by cases e; rfl
+theorem name_addErr (e : Entry) (x : Err) : (e.addErr x).name = e.name := by cases e; rfl
+theorem name_addErrs (e : Entry) (xs : List Err) : (e.addErrs xs).name = e.name := by cases e; rfl
+
+theorem foldl_name {α : Type} (f : Entry → α → Entry) (hf : ∀ e a, (f e a).name = e.name) (l : List α) (e : Entry) :
+    (l.foldl f e).name = e.name := by
+  induction l generalizing e with
+  | nil => rfl
+  | cons a l ih => simp only [List.foldl_cons]; rw [ih, hf]
+
+theorem merge_name (e : Entry) (ns : Option String) (oe : Entry) : (e.merge ns oe).name = e.name := by
+  unfold Entry.merge
+  simp only
+  rw [foldl_name]
+  · exact name_addErrs _ _
+  · intro e a
+    split
+    · exact name_addErr _ _
+    · exact name_withDir _ _
+
+/-! ### one step of the `uses` arm of `toEntry` -/
+
+/-- The body of the fold over `n.all "uses"` in the directory case of `toEntry`: convert the `uses`
+statement `u` (which converts the grouping it denotes), merge the result without namespace. -/
+def usesStep (env : Env) (fuel : Nat) (root : Mod) (sub : List Stmt) (visiting : List NodeId)
+    (acc : Entry × TState) (u : Stmt) : Entry × TState :=
+  let (ge, st) := toEntry env fuel root sub u visiting acc.2
+  (acc.1.merge none ge, st)
+
+theorem merge_none_free (e oe : Entry) (hfresh : ∀ v ∈ oe.dir, v.name ∉ names e) (hnodup : (oe.dir.map (·.name)).Nodup) :
+    e.merge none oe = (e.addErrs (importedErrors oe)).withDir (e.dir ++ oe.dir) := by
+  rw [merge_none_eq, mergeLoop_free _ _ _ (by intro v hv; unfold names; rw [dir_addErrs]; exact hfresh v hv) hnodup,
+    dir_addErrs]
+
 end Goyang.Lemmas.Uses
